@@ -36,6 +36,14 @@ type Tool17 struct {
 	Kind   string `json:"kind"` // inv | str | both
 	Chunks int    `json:"chunks"`
 	Fault  string `json:"fault,omitempty"` // "", err, streamerr, panic
+	Empty  bool   `json:"empty,omitempty"` // the tool's whole output is the empty string
+}
+
+func (d Tool17) out(args string) string {
+	if d.Empty {
+		return ""
+	}
+	return toolOut(d.Name, args)
 }
 
 type Call17 struct {
@@ -91,7 +99,7 @@ func (b *baseTool17) run(ctx context.Context, args string) (string, error) {
 	case "panic":
 		panic("tool " + b.d.Name + " panics on call " + id)
 	}
-	return toolOut(b.d.Name, args), nil
+	return b.d.out(args), nil
 }
 
 func (b *baseTool17) stream(ctx context.Context, args string) (*schema.StreamReader[string], error) {
@@ -102,7 +110,7 @@ func (b *baseTool17) stream(ctx context.Context, args string) (*schema.StreamRea
 	case "panic":
 		panic("tool " + b.d.Name + " panics on call " + id)
 	}
-	parts := gkit.Chunk(toolOut(b.d.Name, args), b.d.Chunks)
+	parts := gkit.Chunk(b.d.out(args), b.d.Chunks)
 	if b.d.Fault == "streamerr" {
 		sr, sw := schema.Pipe[string](len(parts) + 1)
 		for i, p := range parts {
@@ -153,7 +161,7 @@ func genC17(t *rapid.T) CaseC17 {
 	c := CaseC17{}
 	nt := rapid.IntRange(3, 5).Draw(t, "nTools")
 	for i := 0; i < nt; i++ {
-		d := Tool17{Name: fmt.Sprintf("tool%d", i), Kind: []string{"inv", "str", "both"}[rapid.IntRange(0, 2).Draw(t, "kind")], Chunks: rapid.IntRange(1, 4).Draw(t, "chunks")}
+		d := Tool17{Name: fmt.Sprintf("tool%d", i), Kind: []string{"inv", "str", "both"}[rapid.IntRange(0, 2).Draw(t, "kind")], Chunks: rapid.IntRange(1, 4).Draw(t, "chunks"), Empty: rapid.IntRange(0, 5).Draw(t, "empty") == 0}
 		if rapid.IntRange(0, 7).Draw(t, "fault") == 0 {
 			d.Fault = []string{"err", "err", "streamerr", "panic"}[rapid.IntRange(0, 3).Draw(t, "faultKind")]
 		}
@@ -316,7 +324,7 @@ func checkC17(c CaseC17) (*vkit.Failure, vkit.Meta) {
 						failing = append(failing, cl)
 					}
 				}
-				want = append(want, schema.ToolMessage(toolOut(d.Name, cl.Args), cl.ID))
+				want = append(want, schema.ToolMessage(d.out(cl.Args), cl.ID))
 			}
 			ectx := context.WithValue(ctx, env17Key{}, e)
 			rec := &cb17{starts: map[string]int{}, ends: map[string]int{}}
